@@ -128,13 +128,13 @@ pub fn mirror_outcome_eq<S: Src, const SIDE: u8, const HOW: u8>(s: &mut S) {
 
 /// generator level (GEN(K)): the mirrored target is generated in the mirrored position exactly as
 /// often as the target in the original
-pub fn mirror_gen<S: Src, const SIDE: u8, const HOW: u8, const K: u32>(s: &mut S) {
+pub fn mirror_gen<S: Src, const SIDE: u8, const HOW: u8, const KP: u32, const KN: u32>(s: &mut S) {
     crate::stubs::draw_hash_pool(s);
     let b = match any_board(s, SIDE) {
         Some(b) => b,
         None => return,
     };
-    vassume!(gen_bound(&b, K));
+    vassume!(gen_bound2(&b, KP, KN));
     let p = pos_of(b.raw());
     if HOW == MH {
         vassume!(p.castling == 0);
